@@ -42,6 +42,43 @@ Theorem C07_trace_acceptor_sound : forall base tol tr,
 Proof. exact trace_accepts_need. Qed.
 Print Assumptions C07_trace_acceptor_sound.
 
+(* The event thread's conversion of ares_timeout()'s hint to the backends' millisecond timeout
+   (0 means "no timeout" to every backend): for every hint the conversion is usable - never 0,
+   never above INT_MAX - ends strictly after the hint and at most 1 ms later (or early, at the
+   int limit), and is what the event-loop model's wait_until abstracts. *)
+Theorem C07_evthread_timeout_conversion_usable : forall sec usec,
+  0 <= sec -> 0 <= usec < 1000000 -> wait_ms_ok (Some (ms_of_hint sec usec)) = true.
+Proof. exact ms_of_hint_usable. Qed.
+Print Assumptions C07_evthread_timeout_conversion_usable.
+
+Theorem C07_evthread_timeout_conversion_covers : forall sec usec,
+  0 <= sec -> 0 <= usec < 1000000 ->
+  let ms := ms_of_hint sec usec in
+  let hint_us := sec * 1000000 + usec in
+  (ms < INT_MAX -> hint_us < ms * 1000 <= hint_us + 1000) /\
+  (ms = INT_MAX -> INT_MAX * 1000 <= hint_us + 1000).
+Proof. exact ms_of_hint_covers. Qed.
+Print Assumptions C07_evthread_timeout_conversion_covers.
+
+Theorem C07_evthread_wait_until_is_conversion : forall now l m, min_dl l = Some m ->
+  let rem := Z.max 0 (m - now) in
+  wait_until now l = Some (now + ms_of_hint (rem / 1000) ((rem mod 1000) * 1000)).
+Proof. exact wait_until_is_conversion. Qed.
+Print Assumptions C07_evthread_wait_until_is_conversion.
+
+(* what the hook-trace acceptor's conversion verdict means for the implementation's trace *)
+Theorem C07_trace_conversion_sound : forall tr,
+  trace_conversion_ok tr = true ->
+  (forall pre t ms post, tr = pre ++ TWait t ms :: post -> wait_ms_ok ms = true) /\
+  (forall pre sec usec t m post, tr = pre ++ THint sec usec :: TWait t (Some m) :: post ->
+     m = ms_of_hint sec usec).
+Proof.
+  intros tr H. split.
+  - intros pre t ms post E. exact (trace_conversion_waits tr pre t ms post H E).
+  - intros pre sec usec t m post E. exact (trace_conversion_hinted tr pre sec usec t m post H E).
+Qed.
+Print Assumptions C07_trace_conversion_sound.
+
 (* Composition with C19: the deadline index is a skip list ordered by the comparator generated
    from ares_query_timeout_cmp_cb, which C07_deadline_order_total_preorder shows to be a total
    preorder; so after ANY sequence of operations on the index the hint of ares_timeout_int is
